@@ -25,17 +25,13 @@ def main():
             open(p, "w").write(s.replace(old, new))
         rc = 0
         for prop in props:
-            env = dict(os.environ, VERIF_REPO=tmp, VERIF_SCRATCH=tmp)
+            env = dict(os.environ, VERIF_REPO=tmp, VERIF_SCRATCH=tmp, VERIF_REPLAY_DIR=tmp + "/_replays", VERIF_EVIDENCE_DIR=tmp + "/_evidence")
             r = subprocess.run(["./check", prop, tier], cwd=os.path.dirname(os.path.dirname(os.path.abspath(__file__))), env=env, capture_output=True, text=True)
             lines = r.stdout.strip().splitlines()
             print(f"[{prop}] exit={r.returncode}")
             for l in lines[-8:]: print("   ", l[:300])
             if r.returncode == 2: print(r.stderr[-1500:])
             # replays written by a mutant run are not wanted in the checkout
-            import glob
-            for f in glob.glob(f"/verif/replays/{prop}/new-*.json"):
-                os.remove(f)
-            subprocess.run(f"git checkout -q -- evidence/{prop}.json 2>/dev/null", shell=True, cwd="/verif")
     finally:
         shutil.rmtree(tmp, ignore_errors=True)
 
